@@ -37,7 +37,7 @@ def lisp_eval(src, ns_name="verif.scratch", opts=None):
         opts = lmap.map({(kw.keyword(k) if isinstance(k, str) else k): v for k, v in opts.items()})
     with rt.ns_bindings(ns_name):
         ctx = cc.CompilerContext("<verif>", opts=opts)
-        for form in rd.read_str(src):
+        for form in rd.read_str(src, resolver=rt.resolve_alias):  # as the importer / REPL read source
             last = cc.compile_and_exec_form(form, ctx, ns)
     return last
 
